@@ -372,6 +372,65 @@ fn run_qd(c: &Case) -> Obs {
     Obs::ok(obs, regs.len() > 1).with_verdict(check_queries(&f, Mode::Buf(cap), &recs, &regs, &res))
 }
 
+/// kind qdp (wave 10): as qd, plus `BufReader::stream_position()` after every query
+/// (obs = `<result>@<position>,...`; `-` after a panic).  Model:
+/// NV.Fasta.QueryPos.index_and_query_delivered_pos, which the driver also compares with the closed
+/// form index_and_query_pos_closed (query_pos_spec / seq_rest).  Oracle (independent of the model):
+/// the bytes between the seek target and the reported position, without CR / LF, are the bases
+/// returned, and when all the bases asked for were returned the position is just behind the last one.
+fn run_qdp(c: &Case) -> Obs {
+    use std::io::Seek;
+    let f = c.b(0);
+    let cap = (c.u(1) as usize).max(1);
+    let script = parse_script(&c.args[2]);
+    let regs = parse_regions(&c.args[3]);
+    let (recs, _err) = run_index(&f, Mode::Cursor);
+    let index = fai::Index::from(recs.clone());
+    let mut res = Vec::new();
+    let mut obs = Vec::new();
+    let mut bad: Option<String> = None;
+    for r in &regs {
+        let inner = BufReader::with_capacity(cap, ScriptedReader::new(f.clone(), script.clone()));
+        let mut rd = fasta::io::IndexedReader::new(inner, index.clone());
+        let region = to_region(r);
+        let out = match guarded(AssertUnwindSafe(|| rd.query(&region))) {
+            Outcome::Panicked(_) => Err("Panic".to_string()),
+            Outcome::Done(Ok(rec)) => Ok(rec.sequence().as_ref().to_vec()),
+            Outcome::Done(Err(e)) => Err(format!("Err:{}", nv::errkind(&e))),
+        };
+        let pos = if out == Err("Panic".to_string()) {
+            "-".to_string()
+        } else {
+            match rd.get_mut().stream_position() {
+                Ok(p) => p.to_string(),
+                Err(e) => format!("Err:{}", nv::errkind(&e)),
+            }
+        };
+        if let (Ok(bases), Ok(p), Ok(start)) = (&out, pos.parse::<usize>(), index.query(&region)) {
+            let start = (start as usize).min(f.len());
+            let plain = bases.iter().all(|b| *b != b'\r' && *b != b'\n');
+            if p < start || p > f.len() {
+                bad.get_or_insert(format!("position {p} outside [{start}, {}]", f.len()));
+            } else if plain {
+                let between: Vec<u8> = f[start..p].iter().copied().filter(|b| *b != b'\r' && *b != b'\n').collect();
+                let want = r.e.map(|e| (e - r.s.unwrap_or(1) + 1) as usize);
+                if &between != bases {
+                    bad.get_or_insert(format!("bytes up to position {p} are not the bases returned"));
+                } else if want == Some(bases.len()) && !bases.is_empty() && f[p - 1] != *bases.last().unwrap() {
+                    bad.get_or_insert(format!("position {p} is not just behind the last base"));
+                }
+            }
+        }
+        obs.push(format!("{}@{}", fmt_results(std::slice::from_ref(&out)), pos));
+        res.push(out);
+    }
+    let o = Obs::ok(obs.join(","), regs.len() > 1).with_verdict(check_queries(&f, Mode::Buf(cap), &recs, &regs, &res));
+    match bad {
+        Some(d) if !o.verdict.starts_with("fail") => o.with_verdict(Err(("fasta-query-position".to_string(), d))),
+        _ => o,
+    }
+}
+
 fn fai_roundtrip(recs: &[fai::Record]) -> Result<fai::Index, String> {
     let index = fai::Index::from(recs.to_vec());
     let mut w = fai::io::Writer::new(Vec::new());
@@ -1064,6 +1123,7 @@ fn run(c: &Case) -> Obs {
             Obs { obs: fmt_results(&res), verdict: "skip".into(), nontrivial: false }
         }
         "qd" => run_qd(c),
+        "qdp" => run_qdp(c),
         "np" => run_np(&c.b(0)),
         "wr" => run_wr(c),
         "rd" => run_rd(&c.b(0), true),
@@ -1539,6 +1599,7 @@ fn push_file_cases(rng: &mut Rng, w: &mut CaseWriter, f: &[u8], with_queries: bo
         let some: Vec<Reg> = rin.iter().filter(|r| r.e.is_none_or(|e| r.s.unwrap_or(1) <= e)).take(40).step_by(3).cloned().collect();
         if !some.is_empty() {
             w.push("qd", vec![hex(f), cap.to_string(), fmt_script(&script), fmt_regions(&some)]);
+            w.push("qdp", vec![hex(f), cap.to_string(), fmt_script(&script), fmt_regions(&some)]);
         }
     }
 }
